@@ -456,3 +456,7 @@ mod tests {
         println!("========== END DEBUG FORMAT (PRETTY) ==========");
     }
 }
+
+#[cfg(kani)]
+#[path = "/verif/harness/foyer-common/error.rs"]
+mod verif_kani;
